@@ -200,7 +200,7 @@ func (c *Ctx) stackEffect(ia *interpAnchors, op string, f *ssa.Function) {
 	var points []*ssa.BasicBlock
 	control := len(c.runCalls(ia, f)) > 0 || op == "exec"
 	if control {
-		c.controlEffect(ia, op, f, fi, stackField, base, entry)
+		c.controlEffect(ia, op, f, fi, stackField, base, entry, sx)
 		return
 	}
 	if op == "where" {
@@ -221,6 +221,21 @@ func (c *Ctx) stackEffect(ia *interpAnchors, op string, f *ssa.Function) {
 			// nil, or the end-of-file marker that closefile uses to end the run
 			if !isNilConst(v) && !isGlobalLoad(v, "io", "EOF") {
 				ok = false
+			}
+		}
+		if !ok {
+			// `return helper(intp)`: the operator returns normally exactly when the helper does; the
+			// effect is that of the helper's normal returns, composed with what came before
+			if vs := retValuesAt(r, 0); len(vs) == 1 && !c.definitelyNonNil(vs[0], 0) {
+				if call, i, isTail := tailCallOf(vs[0], r); isTail {
+					if g := call.Call.StaticCallee(); g != nil && c.inModule(g) && len(g.Blocks) > 0 {
+						if sx.nilResult == nil {
+							sx.nilResult = map[*ssa.Call]int{}
+						}
+						sx.nilResult[call] = i
+						ok = true
+					}
+				}
 			}
 		}
 		if ok {
@@ -264,10 +279,11 @@ func (c *Ctx) runCalls(ia *interpAnchors, f *ssa.Function) []ssa.CallInstruction
 	if es := c.method("postscript", "Interpreter", "executeScanner"); es != nil {
 		out = append(out, staticCalls(f, es)...)
 	}
-	// calls of helpers that run a procedure on every path
+	// calls of helpers that run a procedure, on every path or on some (a loop over the elements of
+	// an operand runs it zero or more times): the operands are gone before such a helper is entered
 	eachInstr(f, func(ins ssa.Instruction) {
 		if call, ok := ins.(ssa.CallInstruction); ok {
-			if g := call.Common().StaticCallee(); g != nil && g != ia.executeOne && mustCall(g, ia.executeOne, 2) {
+			if g := call.Common().StaticCallee(); g != nil && g != ia.executeOne && c.inModule(g) && (mustCall(g, ia.executeOne, 2) || mayCall(g, ia.executeOne, 2)) {
 				out = append(out, call)
 			}
 		}
@@ -285,7 +301,7 @@ func isGlobalLoad(v ssa.Value, pkg, name string) bool {
 }
 
 // controlEffect: operators that run procedures: operands are popped before the first execution.
-func (c *Ctx) controlEffect(ia *interpAnchors, op string, f *ssa.Function, fi *funcInfo, stackField, base string, entry Lin) {
+func (c *Ctx) controlEffect(ia *interpAnchors, op string, f *ssa.Function, fi *funcInfo, stackField, base string, entry Lin, sx *stackFx) {
 	spec := plrmOps[op]
 	fname := c.fname(f)
 	construct := op + ": operands removed before the procedure runs"
@@ -308,7 +324,22 @@ func (c *Ctx) controlEffect(ia *interpAnchors, op string, f *ssa.Function, fi *f
 		n++
 		// last store to Stack that dominates the call and is a pure pop (prefix re-slice); pushes of loop values come after it
 		var pop *ssa.Store
+		var popCall *ssa.Call // the pop is made by a helper that receives &intp.Stack (ext_y3.go)
+		var popK int64
 		eachInstr(f, func(ins ssa.Instruction) {
+			if pop != nil || popCall != nil {
+				return
+			}
+			if pc, ok := ins.(*ssa.Call); ok && ins != ssa.Instruction(call) && dominatesInstr(pc, call) {
+				for i, a := range pc.Call.Args {
+					if isFieldAddr(a, ia.T, "Stack") && !pc.Call.IsInvoke() {
+						if k, ok := popThroughPointer(pc.Call.StaticCallee(), i); ok {
+							popCall, popK = pc, k
+						}
+					}
+				}
+				return
+			}
 			st, ok := ins.(*ssa.Store)
 			if !ok || !isFieldAddr(st.Addr, ia.T, "Stack") || !dominatesInstr(st, call) {
 				return
@@ -319,6 +350,14 @@ func (c *Ctx) controlEffect(ia *interpAnchors, op string, f *ssa.Function, fi *f
 				}
 			}
 		})
+		if popCall != nil {
+			// height before the helper is entered, relative to the entry, minus what it removes
+			pre, ok := sx.ofEpoch(fi.callEpoch[popCall][stackField], popCall.Block(), 0)
+			if !ok || len(pre) != 1 || fmt.Sprint(pre[0]-popK) != want {
+				okAll = false
+			}
+			continue
+		}
 		if pop == nil {
 			okAll = false
 			continue
@@ -782,6 +821,33 @@ func (c *Ctx) operandRegions(ia *interpAnchors, reg *registry) {
 				continue
 			}
 			c.note("OP-REGION: the evaluation of putinterval stops (%s); deciding on the guards that dominate the copy", stopped)
+		}
+		if ck.op == "getinterval" {
+			// decided on the evaluator (ext_y3.go): index × count around the ends of the object and of
+			// the integer range, for arrays and strings; the entailment below only if an evaluation stops
+			stopped := ""
+			type res struct {
+				kind  string
+				bad   []string
+				cells int
+			}
+			var rs []res
+			for _, kind := range []string{"Array", "String"} {
+				bad, cells, decided, why := c.getintervalByEvaluation(f, kind)
+				if !decided {
+					stopped = why
+					break
+				}
+				rs = append(rs, res{kind, bad, cells})
+			}
+			if stopped == "" {
+				for _, r := range rs {
+					c.check(len(r.bad) == 0, "OP-REGION", fname, ck.op+": accepted operands ≡ "+ck.desc+" ("+strings.ToLower(r.kind)+")", f.Pos(), fmt.Sprintf("%d cells evaluated: index × count", r.cells),
+						ck.op+": "+joinMax(r.bad, 3))
+				}
+				continue
+			}
+			c.note("OP-REGION: the evaluation of getinterval stops (%s); deciding on the guards that dominate the slicing", stopped)
 		}
 		rc := &regionCtx{c: c, ia: ia, f: f, fi: newFuncInfo(f)}
 		anchors := ck.anchors(rc)
